@@ -37,6 +37,14 @@ CHECKS = {
                      "and per-driver delivery are validated event by event.",
                 note="faults are injected by division by zero in generated programs, failing scripted drivers, Runtime::watchdog_timeout/simulation_fault"),
 }
+CHECKS["C09"] = dict(cat="model_checking", engine="RuntimeCycle", ref="§5 C09",
+    tech="TLA+ RuntimeCycle restart model checked with TLC; restart/power-cycle histories replayed on the real runtime and trace-validated by TLC",
+    text="TLC checks WarmKeepsExactlyRetained, ColdEqualsFresh, PowerCycleSetEqualsWarmSet, RestartResets on MCRuntimeCycle; generated "
+         "programs declaring RETAIN/NON_RETAIN/PERSISTENT/unqualified variables of 9 type shapes in global and program scope run "
+         "histories of cycles, faults, %I changes, warm/cold restarts, save+rebuild+load power cycles and VAR_ACCESS writes on the real "
+         "runtime; after every event the decoded variable values, bound variables, images, access paths, task state, clock and latch "
+         "are validated against the specification, whose restart equals a fresh configuration (so dead bindings show as divergence).",
+    note="raw %Q/%I image bytes between restart() and the next cycle are not compared (only what cycles publish); RETAIN FB instances are not generated")
 NOT_YET = "check not built yet in this round (see DESIGN.md build order); no claim made"
 
 
@@ -72,7 +80,7 @@ def main():
         "engines": [
             {"name": "StdFb", "path": "spec/StdFb.tla", "serves_properties": ["C04"],
              "kind_free_text": "TLA+ module + MC instance + trace refinement; harness sub-commands fb-gen / fb-run"},
-            {"name": "RuntimeCycle", "path": "spec/RuntimeCycle.tla", "serves_properties": ["C06", "C07", "C08"],
+            {"name": "RuntimeCycle", "path": "spec/RuntimeCycle.tla", "serves_properties": ["C06", "C07", "C08", "C09"],
              "kind_free_text": "TLA+ module + MC instance + trace refinement; harness sub-commands cycle-gen / cycle-run"},
         ],
         "checks": checks,
